@@ -139,6 +139,9 @@ func (c *Call) MethodName() string {
 // strip removes value-preserving wrappers: ChangeType, MakeInterface, ChangeInterface, (optionally) integer
 // width conversions, and the load of a local variable cell that is assigned exactly once (a local that is captured by a
 // closure or has its address taken lives in such a cell: x := e; ... use(x)).
+// inCarrierLookup guards strip against re-entering the carrier-struct lookup (which itself inspects field accesses).
+var inCarrierLookup bool
+
 func strip(v ssa.Value, widths bool) ssa.Value {
 	for n := 0; n < 64; n++ {
 		switch x := v.(type) {
@@ -151,9 +154,12 @@ func strip(v ssa.Value, widths bool) ssa.Value {
 					}
 				}
 				// a field of a local struct built only to carry values (rttFold{minRTT: c, ...}): what was stored into it
-				if fa, ok := x.X.(*ssa.FieldAddr); ok && curProg != nil {
-					if _, isAlloc := fa.X.(*ssa.Alloc); isAlloc {
-						if val, _, ok := curProg.carriedField(fa.X, fa.Field, nil, 0); ok && val != nil {
+				if fa, ok := x.X.(*ssa.FieldAddr); ok && curProg != nil && !inCarrierLookup {
+					if al, isAlloc := fa.X.(*ssa.Alloc); isAlloc && !al.Heap {
+						inCarrierLookup = true
+						val, _, ok := curProg.carriedField(fa.X, fa.Field, nil, 0)
+						inCarrierLookup = false
+						if ok && val != nil {
 							v = val
 							continue
 						}
@@ -162,8 +168,17 @@ func strip(v ssa.Value, widths bool) ssa.Value {
 			}
 			return v
 		case *ssa.Field:
-			if curProg != nil {
-				if val, _, ok := curProg.carriedField(x.X, x.Field, nil, 0); ok && val != nil {
+			localCarrier := false
+			if u, ok := x.X.(*ssa.UnOp); ok && u.Op == token.MUL {
+				if al, ok := u.X.(*ssa.Alloc); ok && !al.Heap {
+					localCarrier = true
+				}
+			}
+			if curProg != nil && !inCarrierLookup && localCarrier {
+				inCarrierLookup = true
+				val, _, ok := curProg.carriedField(x.X, x.Field, nil, 0)
+				inCarrierLookup = false
+				if ok && val != nil {
 					v = val
 					continue
 				}
